@@ -35,6 +35,35 @@ def mk(model: Model) -> tuple[Evaluator, SetAlg]:
     return ev, sa
 
 
+def _drop_pair_guards(t: Term) -> Term:
+    """combinations(L, 2) is empty when L has fewer than two elements: a guard `len(L) >= 2` (or `continue` on len(L) < 2) around it is
+    redundant and is dropped before comparing."""
+    def is_len_guard(c, L):
+        neg = False
+        while c[0] == "not":
+            neg = not neg
+            c = c[1]
+        if c[0] in ("lt", "le") and len(c) == 3:
+            a_, b_ = c[1], c[2]
+            for x, y in ((a_, b_), (b_, a_)):
+                if x[0] == "len" and (x[1] == L or (x[1][0] == "call" and x[1][2] and x[1][2][0] == L) or (L[0] == "call" and L[2] and L[2][0] == x[1])) and y[0] == "const":
+                    return True
+        return False
+
+    def f(s):
+        if s[0] in ("comp", "accum"):
+            gens = s[3] if s[0] == "comp" else s[4]
+            payload = s[2] if s[0] == "comp" else s[3]
+            Ls = [x[2][0] for x in subterms((payload, gens)) if x[0] == "call" and str(x[1]).endswith("combinations") and len(x[2]) == 2 and x[2][1] == ("const", 2)]
+            if Ls:
+                new_gens = tuple((p_, i_, tuple(c for c in cs if not any(is_len_guard(c, L) for L in Ls))) for p_, i_, cs in gens)
+                if new_gens != tuple(gens):
+                    return s[:3] + (new_gens,) if s[0] == "comp" else s[:4] + (new_gens,) + s[5:]
+        return None
+    from ..terms import mapterm
+    return mapterm(t, f)
+
+
 def graph_triple(t: Term, sa: SetAlg):
     """(N, D, U) collection terms of a graph-valued term built from a record + builder effects, or None."""
     N: list[Term] = []
@@ -56,6 +85,10 @@ def graph_triple(t: Term, sa: SetAlg):
             if n is None:
                 return False
             N.append(comp("set", n, gens))
+            return True
+        if name in ("add_directed_edge", "add_undirected_edge") and len(args) == 1 and args[0][0] == "star" and not kw:
+            # add_*_edge(*pair): the pair itself is the edge
+            (D if name == "add_directed_edge" else U).append(comp("list", args[0][1], gens))
             return True
         if name in ("add_directed_edge", "add_undirected_edge"):
             u = kw.get("u", args[0] if args else None)
@@ -313,20 +346,28 @@ def run(model: Model, rep: Report, tier: str) -> None:
     f = method("disorient")
     paths = return_paths(ev.run(f, {}, self_term=G))
     okd, detail = False, "disorient() must build a fresh nx.Graph from all nodes and both edge families"
+    sample = {}
     if len(paths) == 1:
+        from .common import nx_builder_parts
         v = paths[0].value
-        effs = []
-        base = v
-        if v[0] == "mut":
-            base, effs = v[1], list(v[2])
-        fresh = base[0] == "call" and str(base[1]).split(".")[-1] == "Graph" and not base[2]
-        nodes_terms = [sa.canon(sa.strip(x[2][0])) for x in effs if x[0] == "call" and x[1] == "add_nodes_from" and x[2]]
-        edge_terms = [sa.canon(sa.strip(x[2][0])) for x in effs if x[0] == "call" and x[1] == "add_edges_from" and x[2]]
-        if base[0] == "call" and str(base[1]).split(".")[-1] == "Graph" and base[2]:
-            detail += " (a graph constructed from an edge list alone loses nodes without edges)"
-        if fresh and ("V", G) in nodes_terms and ("Ed", G) in edge_terms and ("Eu", G) in edge_terms and len(effs) == len(nodes_terms) + len(edge_terms):
-            okd = True
+        parts = nx_builder_parts(v, sa)
         sample = {"value": short(show(v), 300)}
+        if parts is None:
+            base = v
+            while base[0] in ("mut", "accum"):
+                base = base[1] if base[0] == "mut" else base[2]
+            if base[0] == "call" and str(base[1]).split(".")[-1] == "Graph" and base[2]:
+                detail += " (a graph constructed from an edge list alone loses nodes without edges)"
+        else:
+            base, nparts, eparts = parts
+            undirected = str(base[1]).split(".")[-1] == "Graph"
+            nodes_all = {el[1] for el, g in nparts if el[0] == "ALL" and not g}
+            edges_all = {el[1] for el, g in eparts if el[0] == "ALL" and not g}
+            other = [1 for el, g in nparts + eparts if not (el[0] == "ALL" and not g)]
+            if undirected and ("V", G) in nodes_all and ("Ed", G) in edges_all and ("Eu", G) in edges_all and not other and edges_all == {("Ed", G), ("Eu", G)}:
+                okd = True
+            elif not undirected:
+                detail += " (the flat graph must be undirected)"
     if okd:
         rep.proven("R14.2", construct(f, "flat-graph"), loc=loc(f), sample=sample)
     else:
@@ -343,8 +384,20 @@ def run(model: Model, rep: Report, tier: str) -> None:
         if tr is not None and not has_unknown(paths[0].value):
             Nn, Dd, Uu = tr
             wantU = ("union", ("Eu", G), ("comp", "list", pair_, ((pair_, ("bigunion", ("comp", "set", ("call", "combinations", (pred(node_), ("const", 2)), ()), ((node_, V, ()),))), ()),)))
-            a = sa.canon_top(("setof", Uu))
-            b = sa.canon_top(("setof", wantU))
+            def _unwrap_comb(t):
+                from ..terms import mapterm
+                def g(s_):
+                    if s_[0] == "call" and str(s_[1]).endswith("combinations") and len(s_[2]) == 2:
+                        x = s_[2][0]
+                        while x[0] == "call" and x[1] in ("list", "tuple", "sorted", "set", "frozenset") and len(x[2]) == 1:
+                            x = x[2][0]
+                        while x[0] == "setof":
+                            x = x[1]
+                        return ("call", "combinations", (x, s_[2][1]), ())
+                    return None
+                return mapterm(t, g)
+            a = sa.canon_top(("setof", _unwrap_comb(_drop_pair_guards(Uu))))
+            b = sa.canon_top(("setof", _unwrap_comb(wantU)))
             c1 = compare(sa.member(n, Nn), inV)[0]
             c2 = compare(sa.member(e, Dd), eD)[0]
             okm = c1 and c2 and a == b
@@ -379,7 +432,7 @@ def run(model: Model, rep: Report, tier: str) -> None:
     paths = return_paths(evp.run(f, {"nodes": Sp, "topological_sort_order": order}, self_term=Gp))
     okp, detail = False, "pre(N, order) must be the prefix of `order` before the first member of N"
     for p in paths:
-        v = p.value
+        v = sa.strip(p.value)
         # accepted normal form: accumulation over the order, filtered by "not in N", stopped by break at first member
         if v[0] == "accum" and v[1] == "concat" and v[5] == ("const", True):
             (pat, it, conds), = v[4]
@@ -414,12 +467,41 @@ def run(model: Model, rep: Report, tier: str) -> None:
             Nn = sa.rewrite(Nn)
             try:
                 problems = []
-                if not (Nn[0] == "comp" and len(Nn[3]) == 1 and sa.strip(Nn[3][0][1]) == V and not Nn[3][0][2]):
+
+                def single_part(t):
+                    """(element, pattern, source, conditions) when the collection is one comprehension / one filtered loop over a source."""
+                    ps = sa.union_parts(t)
+                    if len(ps) > 1 and all(q[0] == "bigunion" and q[1][0] == "comp" and len(q[1][3]) == 1 for q in ps) and \
+                            len({(q[1][2], q[1][3][0][0], q[1][3][0][1]) for q in ps}) == 1:
+                        # the same element drawn from the same source under several alternative guards (a loop body with several paths):
+                        # one part whose guard is the disjunction
+                        q0 = ps[0]
+                        alts = [("and",) + tuple(q[1][3][0][2]) if len(q[1][3][0][2]) != 1 else q[1][3][0][2][0] for q in ps if q[1][3][0][2]]
+                        guard = (("or",) + tuple(alts),) if len(alts) > 1 else tuple(alts)
+                        ps = [("bigunion", ("comp", "set", q0[1][2], ((q0[1][3][0][0], q0[1][3][0][1], guard),)))]
+                    if len(ps) != 1:
+                        return None
+                    p_ = ps[0]
+                    if p_[0] == "bigunion" and p_[1][0] == "comp" and len(p_[1][3]) == 1:
+                        pl = sa.strip(p_[1][2])
+                        el = pl[1][0] if pl[0] in ("setlit", "listlit", "tuplelit") and len(pl[1]) == 1 else None
+                        pat, src, cs = p_[1][3][0]
+                        return el, pat, sa.strip(src), tuple(cs)
+                    if p_[0] == "comp" and len(p_[3]) == 1:
+                        pat, src, cs = p_[3][0]
+                        return p_[2], pat, sa.strip(src), tuple(cs)
+                    return None
+
+                pn, pd, pu = single_part(Nn), single_part(Dd), single_part(Uu)
+                if not (pn and pn[2] == V and not pn[3]):
                     problems.append("nodes must be every node of the graph, each intervened")
-                if not (Dd[0] == "comp" and len(Dd[3]) == 1 and sa.strip(Dd[3][0][1]) == ("Ed", G)):
+                if not (pd and pd[2] == ("Ed", G) and pd[1][0] == "tuplelit" and len(pd[1][1]) == 2):
                     problems.append("directed edges must be drawn from the directed component")
-                if not (Uu[0] == "comp" and len(Uu[3]) == 1 and sa.strip(Uu[3][0][1]) == ("Eu", G)):
+                if not (pu and pu[2] == ("Eu", G) and pu[1][0] == "tuplelit" and len(pu[1][1]) == 2):
                     problems.append("bidirected edges must be drawn from the bidirected component")
+                if not problems:
+                    Dd = ("comp", "list", pd[0], ((pd[1], pd[2], pd[3]),))
+                    Uu = ("comp", "list", pu[0], ((pu[1], pu[2], pu[3]),))
                 if not problems:
                     (dp, _, dc), = Dd[3]
                     (up, _, uc), = Uu[3]
@@ -440,7 +522,7 @@ def run(model: Model, rep: Report, tier: str) -> None:
 
                     for fm in (FD, FU, FUs, FDy_on_x):
                         for a in atoms_of(fm):
-                            if a[0] == "isinstance":
+                            if a[0] == "isinstance" or any(s_[0] == "bottom" for s_ in subterms(a)):
                                 ax.append(f_not(("atom", a)))
                     if not compare(FU, FUs, ax)[0]:
                         r = compare(FU, FUs, ax)[1]
@@ -477,9 +559,11 @@ def run(model: Model, rep: Report, tier: str) -> None:
         else:
             p, es = bad[0]
             rep.refuted("R14.3", construct(f, "pure"), f"may modify its argument `{p}`: {es[0].how}", loc(f, es[0].line))
-    for fn in ("y0.graph.get_nodes_in_directed_paths", "y0.graph.iter_moral_links", "y0.graph._include_adjacent",
-               "y0.graph._exclude_source", "y0.graph._exclude_target", "y0.graph._exclude_adjacent",
-               "y0.graph._ancestors_inclusive", "y0.graph._descendants_inclusive"):
+    # module-level functions of graph.py that the operations use (private helpers come and go with refactorings: every helper that exists
+    # is checked; the effects of helpers are in any case part of their callers' summaries above)
+    helpers = ["y0.graph.get_nodes_in_directed_paths", "y0.graph.iter_moral_links"] + sorted(
+        fn_.qname for fn_ in model.funcs_in_module("y0.graph") if fn_.cls is None and fn_.name.startswith("_") and not fn_.name.startswith("__"))
+    for fn in helpers:
         f = model.func(fn)
         sm = eff.summary(f)
         if not sm.mutates:
